@@ -66,6 +66,11 @@ def run_history(ctx: Ctx, ops_sym, tag: str, corpus: bool = False):
         ("q " if o.get("setup") else "") + " ".join(op_tokens(o)) for o in concrete)
     model = ctx.driver.ask1(line).split(" || ")
     ctx.traces += 1
+    if model and model[-1] == "ERR:unsupported":
+        # outside the modelled fragment (e.g. a 2-dimensional sort/filter key): no expectation for that operation
+        ctx.count("model-unsupported")
+        k = len(model) - 1
+        model, impl_out = model[:k], impl_out[:k]
     if model != impl_out:
         k = next((i for i, (a, b) in enumerate(itertools.zip_longest(model, impl_out)) if a != b), 0)
         ctx.disagree(f"history replay ({concrete[min(k, len(concrete) - 1)]['op']})",
